@@ -12,6 +12,7 @@ import (
 	"sort"
 	"strconv"
 	"strings"
+	"sync"
 	"time"
 
 	"verif/engine/explore"
@@ -127,6 +128,8 @@ func runCheck(id, tier string) int {
 			rep, vs, smp, err = runExplore(b, id, p, tier, fds, knownSeen)
 		case "enum":
 			rep, vs, smp, err = runEnum(b, id, p, tier)
+		case "conform":
+			rep, vs, smp, err = runConform(b, id, p, tier)
 		}
 		if err != nil {
 			engineErr = err.Error()
@@ -604,4 +607,98 @@ func replay(id, file string) int {
 		}
 	}
 	return rc
+}
+
+// runConform binds the environment model to reality: the conformance instances of the
+// part's scenarios are executed (a) free-running outside any bubble — real time, real
+// sockets — and (b) on the default schedule inside the bubble; the sorted observation
+// lists must be equal and neither side may report a violation.
+func runConform(b *built, prop string, p part, tier string) (partReport, []violation, []any, error) {
+	rep := partReport{Name: p.Name, Kind: "conform", Exhaustive: true}
+	t0 := time.Now()
+	cmd := exec.Command(b.worker, "-test.run", "^TestConformance$", "-test.timeout", "600s")
+	tmp := filepath.Join(b.dir, "tmp")
+	os.MkdirAll(tmp, 0o755)
+	cmd.Env = append(os.Environ(), "VERIF_CONFORM="+p.Scen, "TMPDIR="+tmp)
+	cmd.Dir = b.dir
+	errf, _ := os.Create(filepath.Join(b.dir, "conform.stderr"))
+	cmd.Stderr = errf
+	outp, _ := cmd.StdoutPipe()
+	if err := cmd.Start(); err != nil {
+		return rep, nil, nil, err
+	}
+	free := map[string]explore.ObsRec{}
+	sc := bufio.NewScanner(outp)
+	sc.Buffer(make([]byte, 1<<20), 16<<20)
+	for sc.Scan() {
+		if l := sc.Text(); strings.HasPrefix(l, "CONF ") {
+			var r explore.ObsRec
+			if json.Unmarshal([]byte(l[5:]), &r) == nil {
+				free[r.Scen+"|"+r.Params.Key()] = r
+			}
+		}
+	}
+	werr := cmd.Wait()
+	errf.Close()
+	if werr != nil {
+		return rep, nil, nil, fmt.Errorf("free-running conformance run failed: %v\n%s", werr, headTail(filepath.Join(b.dir, "conform.stderr"), 2000))
+	}
+	// the same instances on the default schedule inside the bubble
+	a := newAgg()
+	pl := newPool(b, a)
+	pl.expandIf = func(int) bool { return false }
+	byScen := map[string][]explore.Params{}
+	for _, r := range free {
+		byScen[r.Scen] = append(byScen[r.Scen], r.Params)
+	}
+	var mu sync.Mutex
+	bubble := map[string]explore.ObsRec{}
+	pl.onResult = func(r *explore.Result) {
+		mu.Lock()
+		for _, o := range r.ObsList {
+			bubble[o.Scen+"|"+o.Params.Key()] = o
+		}
+		mu.Unlock()
+	}
+	for sn, ps := range byScen {
+		for _, q := range ps {
+			pl.push(&explore.Task{Scen: sn, Params: q, Depth: 0, WantObs: true})
+		}
+	}
+	pl.run()
+	if pl.stopErr != nil {
+		return rep, nil, nil, pl.stopErr
+	}
+	var viols []violation
+	var smp []any
+	matched := 0
+	keys := make([]string, 0, len(free))
+	for k := range free {
+		keys = append(keys, k)
+	}
+	sort.Strings(keys)
+	for _, k := range keys {
+		f := free[k]
+		bu, ok := bubble[k]
+		rep.Evaluations += 2
+		switch {
+		case !ok:
+			viols = append(viols, violation{Part: p.Name, Scen: f.Scen, Params: f.Params.Key(), Class: "CONFORMANCE", Msg: "instance produced no result inside the bubble"})
+		case len(f.Viol) > 0:
+			viols = append(viols, violation{Part: p.Name, Scen: f.Scen, Params: f.Params.Key(), Class: "CONFORMANCE", Msg: fmt.Sprintf("free-running execution (real time, real sockets) reports [%s] %s", f.Viol[0].Class, f.Viol[0].Msg), Replay: f})
+		case len(bu.Viol) > 0:
+			viols = append(viols, violation{Part: p.Name, Scen: f.Scen, Params: f.Params.Key(), Class: bu.Viol[0].Class, Msg: bu.Viol[0].Msg, Replay: bu})
+		case strings.Join(f.Obs, "\n") != strings.Join(bu.Obs, "\n"):
+			viols = append(viols, violation{Part: p.Name, Scen: f.Scen, Params: f.Params.Key(), Class: "CONFORMANCE",
+				Msg: fmt.Sprintf("environment model disagrees with reality: free-running observations %v, in-bubble default schedule %v", f.Obs, bu.Obs), Replay: map[string]any{"free": f, "bubble": bu}})
+		default:
+			matched++
+			if len(smp) < 2 {
+				smp = append(smp, map[string]any{"scenario": f.Scen, "params": f.Params, "observations_equal_in_both_worlds": f.Obs})
+			}
+		}
+	}
+	rep.Extra = map[string]any{"traces_validated_against_impl": matched, "distinct_nontrivial": matched, "conformance_instances": len(free)}
+	rep.WallS = time.Since(t0).Seconds()
+	return rep, viols, smp, nil
 }
